@@ -233,14 +233,15 @@ PROPS["C03"] = {
 
 _c14 = []
 for (n, ty, k) in [("index_queue", "FixedSizeIndexQueue<2>", 3), ("overflow_queue", "FixedSizeSafelyOverflowingIndexQueue<2>", 3),
-                   ("unique_index_set", "FixedSizeUniqueIndexSet<3>", 4), ("robust_index_set", "StaticRobustUniqueIndexSet<2>", 3),
-                   ("bit_set", "FixedSizeBitSet<10>", 3), ("counting_bit_set", "FixedSizeCountingBitSet<3>", 3),
-                   ("container", "FixedSizeContainer<u32,2> (add/remove)", 3), ("static_vec", "StaticVec<u8,3>", 3),
+                   ("unique_index_set", "FixedSizeUniqueIndexSet<3>", 3), ("robust_index_set", "StaticRobustUniqueIndexSet<2>", 2),
+                   ("bit_set", "FixedSizeBitSet<9>", 2), ("counting_bit_set", "FixedSizeCountingBitSet<3>", 3),
+                   ("container", "FixedSizeContainer<u32,2> (add/remove)", 2), ("static_vec", "StaticVec<u8,3>", 3),
                    ("relocatable_vec", "RelocatableVec<u8> + data in one block", 3), ("queue", "FixedSizeQueue<u8,2>", 3),
                    ("string", "StaticString<3>", 3), ("slot_map", "FixedSizeSlotMap<u8,2>", 3),
                    ("flat_map", "FixedSizeFlatMap<u8,u8,2>", 3)]:
     heavy = n in ("slot_map", "flat_map")
-    _c14.append(H("c14::c14_" + n, covers=1, timeout=7200 if heavy else 1800, mem_gb=30 if heavy else 8,
+    _c14.append(H("c14::c14_" + n, covers=1, timeout=7200 if heavy else 1800,
+                  mem_gb=30 if heavy else (14 if n in ("robust_index_set", "container", "bit_set", "unique_index_set") else 8),
                   tiers=("thorough",) if heavy else ("quick", "thorough"),
                   what="%s: %d symbolic operations, byte-copy to a fresh block at a symbolic point of the history "
                        "(old block scribbled and freed), lock-step comparison with a twin that stayed" % (ty, k),
@@ -278,30 +279,30 @@ PROPS["C09"] = {
           bounds="unwind 8; 6 steps"),
         H("c09::c09_uis_raii", covers=0, timeout=600, mem_gb=3, what="UniqueIndex RAII gives the index back on drop",
           bounds="unwind 8"),
-        H("c09::c09_robust_history_cap2", covers=4, timeout=1500, mem_gb=6,
+        H("c09::c09_robust_history_cap2", covers=3, timeout=1500, mem_gb=10,
           what="StaticRobustUniqueIndexSet<2>: acquire/release(owner, mode)/recover(dead owner) history vs owner model",
           bounds="unwind 8; 3 steps (add/remove), 2 owners"),
         H("c09::c09_robust_history_cap3", covers=4, timeout=5400, mem_gb=12, tiers=("thorough",),
-          what="robust set, capacity 3", bounds="unwind 8; 5 steps"),
+          what="robust set, capacity 3", bounds="unwind 5; 4 steps"),
         H("c09::sched::c09_s_uis_race_cap2", crate="hs", covers=2, timeout=1800, mem_gb=10, tiers=("quick",),
           what="two threads racing acquire/release on the real free list; exclusivity, bounds, legitimate failures, "
-               "leak freedom; ABA shape witnessed", bounds="unwind 8; capacity 2, 2 outer / 3 inner operations"),
+               "leak freedom; ABA shape witnessed", bounds="unwind 6; capacity 2, 2 outer / 2 inner operations"),
         H("c09::sched::c09_s_uis_race_cap2_lock", crate="hs", covers=2, timeout=1800, mem_gb=10, tiers=("quick",),
           what="same race with every release in LockIfLastIndex mode: Locked reported iff the set is locked afterwards, "
                "no acquire succeeds after a reported lock, the last release locks",
-          bounds="unwind 8; capacity 2, 2 outer / 3 inner operations"),
+          bounds="unwind 6; capacity 2, 2 outer / 2 inner operations"),
         H("c09::sched::c09_s_uis_race_cap2_lock_deep", crate="hs", covers=2, timeout=7200, mem_gb=16, tiers=("thorough",),
-          what="lock-if-last race, 3 outer / 4 inner operations", bounds="unwind 8"),
+          what="lock-if-last race, 2 outer / 3 inner operations", bounds="unwind 6"),
         H("c09::sched::c09_s_robust_recover_race", crate="hs", covers=2, timeout=2400, mem_gb=12, tiers=("quick",),
           what="robust set: recovery of a dead owner preempted at every atomic operation while a second recoverer and "
                "a live owner (acquire/release) run in the gaps: exactly the dead owner's indices, each once; the live "
-               "owner keeps its indices", bounds="unwind 8; capacity 2, 2 inner operations"),
+               "owner keeps its indices", bounds="unwind 6; capacity 2, 2 inner operations"),
         H("c09::sched::c09_s_robust_recover_race_deep", crate="hs", covers=2, timeout=7200, mem_gb=16, tiers=("thorough",),
-          what="robust recovery race with 3 inner operations", bounds="unwind 8"),
+          what="robust recovery race with 3 inner operations", bounds="unwind 6"),
         H("c09::sched::c09_s_uis_race_cap1", crate="hs", covers=1, timeout=1800, mem_gb=8, tiers=("quick",),
-          what="same, capacity 1", bounds="unwind 8; 2 outer / 3 inner operations"),
+          what="same, capacity 1", bounds="unwind 6; 2 outer / 2 inner operations"),
         H("c09::sched::c09_s_uis_race_cap3_deep", crate="hs", covers=2, timeout=7200, mem_gb=16, tiers=("thorough",),
-          what="same, capacity 3, 3 outer / 4 inner operations", bounds="unwind 8"),
+          what="same, capacity 3, 2 outer / 3 inner operations", bounds="unwind 6"),
     ],
     "claimed": False,
 }
@@ -321,13 +322,13 @@ PROPS["C12"] = {
         H("c12::c12_seq_raw_layout", covers=1, timeout=1500, mem_gb=6,
           what="raw management API with symbolic size/alignment/misalignment: cells aligned, disjoint, inside the "
                "computed size; raw store/load round trip", bounds="unwind 14; size<=12, align<=8, misalign<8"),
-        H("c12::sched::c12_s_reader_outer", crate="hs", covers=2, timeout=1800, mem_gb=10, tiers=("quick",),
+        H("c12::sched::c12_s_reader_outer", crate="hs", covers=3, timeout=1800, mem_gb=10, tiers=("quick",),
           what="reader preempted at every shared operation and in the middle of its copy; writer runs complete stores: "
                "no torn value, monotone, not older than completed stores", bounds="unwind 10; 2 loads, <=2 stores"),
         H("c12::sched::c12_s_writer_outer", crate="hs", covers=1, timeout=1800, mem_gb=10, tiers=("quick",),
           what="writer preempted at every shared operation; reader runs complete loads inside the stores",
           bounds="unwind 10; 2 stores, <=2 loads"),
-        H("c12::sched::c12_s_reader_outer_deep", crate="hs", covers=2, timeout=7200, mem_gb=16, tiers=("thorough",),
+        H("c12::sched::c12_s_reader_outer_deep", crate="hs", covers=3, timeout=7200, mem_gb=16, tiers=("thorough",),
           what="2 loads, <=3 stores", bounds="unwind 10"),
         H("c12::sched::c12_s_writer_outer_deep", crate="hs", covers=1, timeout=7200, mem_gb=16, tiers=("thorough",),
           what="3 stores, <=3 loads", bounds="unwind 10"),
@@ -390,6 +391,11 @@ PROPS["C13"] = {
         H("cal::conn::c13_mismatching_attach", features=CAL, covers=0, timeout=3000, mem_gb=26,
           what="each single mismatching parameter is refused with its specific error, leaves the sender attached and "
                "the resource alive; a matching attach still works", bounds="unwind 6; 6 parameters"),
+        H("cal::conn::c13_attach_races_detach", features=CAL, covers=2, timeout=3000, mem_gb=26,
+          what="receiver attach racing the sender's detach at the two points where another process can act (after "
+               "open / after port registration; hook in the storage model): refused as being cleaned up or attached "
+               "to a live resource, never to a destroyed one; destroyed exactly once by the last one out, also when "
+               "the last one out is a mismatching attacher", bounds="unwind 6; 2 race points x matching/mismatching"),
         H("cal::conn::c13_forced_removal", features=CAL, covers=2, timeout=3000, mem_gb=26,
           what="remove_sender/remove_receiver on behalf of a dead peer before or after the survivor leaves: destroyed "
                "exactly once, never under the survivor", bounds="unwind 6"),
